@@ -400,6 +400,16 @@ namespace ipr {
          }
          void visit(const Expr& e) override
          {
+            // An expression that no production handles comes back here
+            // right after being parenthesized; do not go around again.
+            if (pp.parenthesized == &e)
+               Missing_overrider{ }(e);
+            struct Restore {
+               Printer& pp;
+               const Expr* saved;
+               ~Restore() { pp.parenthesized = saved; }
+            } restore { pp, pp.parenthesized };
+            pp.parenthesized = &e;
             pp << token('(') << xpr_expr(e) << token(')');
          }
          void visit(const Decl& d) override { d.name().accept(*this); }
